@@ -27,7 +27,11 @@ RULE = ('(a) schedules: the unmodified resume_tests + spawn_layer_in_subprocess 
         'keep-alive collectors; invariants at every state (live children <= N, '
         'printed bytes are a prefix of the sequential block sequence) and at '
         'every terminal state (output == sequential reference, ran / failure / '
-        'error multisets == sum of the child reports, no deadlock). (b) '
+        'error multisets == sum of the child reports, no deadlock); with -x: '
+        'nothing is started once the parent began a poll iteration with a '
+        'failure or error on record, the started layers are a prefix of the '
+        'layer order reaching the first bad layer (exactly, for -j1), and the '
+        'terminal state equals the sequential run of the started layers. (b) '
         'worlds: -j1..-j4 runs of outcome worlds against the sequential run. '
         'non-trivial = a configuration with >=2 children')
 ASSUMPTIONS = [
@@ -36,7 +40,7 @@ ASSUMPTIONS = [
     'virtual children are bound to real child processes by the byte-level conformance cases of C07',
 ]
 BOUND = {
-    'quick': 'k=2 children: preemption bound 2 (1 with 8-byte pipes), N in 1..3, 3 collectors, 2 pipe capacities, 4 script pairs (two with a spawn failure: last / first layer); k=3: bound 1, N in 1..4, 3 script triples; worlds: 6 shapes x <=1 outcome (10 kinds incl. fd-2 noise, a failing id with FF/LS/NEL/FS/VT and output lines starting with a dot) x -j1..-j4 x -v0..2, and --shuffle under -j2/-j3 against the sequential order x -j1..-j4 x -v0..2',
+    'quick': 'k=2 children: preemption bound 2 (1 with 8-byte pipes), N in 1..3, 3 collectors, 2 pipe capacities, 4 script pairs (two with a spawn failure: last / first layer); k=3: bound 1, N in 1..4, 3 script triples; worlds: 6 shapes x <=1 outcome (10 kinds incl. fd-2 noise, a failing id with FF/LS/NEL/FS/VT and output lines starting with a dot) x -j1..-j4 x -v0..2, and --shuffle under -j2/-j3 against the sequential order x -j1..-j4 x -v0..2; --stop-on-error: 3 pairs (bound 2) and 3 triples (bound 1) with the first bad layer first / middle / unspawnable, N in 1..3, v in {0,2}',
     'thorough': 'k=2: preemption bound 3 (2 with 8-byte pipes); k=3: bound 2; k=4: bound 1, N in 2..5; worlds with <=2 outcomes',
 }
 CHUNK = 1
@@ -119,6 +123,33 @@ def configs(tier):
         for N in (2, 3, 4, 5):
             for v in (0, 2):
                 out.append({'k': 4, 'scripts': quad, 'N': N, 'v': v, 'cap': 64, 'bound': 1, 'id': 'k4'})
+    # --stop-on-error: which layers get started now depends on the schedule.
+    # Whatever it is, it must be a prefix of the layer order, nothing may be
+    # started once the parent began a poll iteration with a failure / error on
+    # record, and what was started must be reported completely.
+    xpairs = [
+        {'La': script(b'La', REPORT_C), 'Lb': script(b'Lb', REPORT_A, tail=True)},
+        {'La': script(b'La', REPORT_A, dots=False), 'Lb': script(b'Lb', REPORT_B)},
+        {'La': 'oserror', 'Lb': script(b'Lb', REPORT_A)},
+    ]
+    for pi, sc in enumerate(xpairs):
+        for N in (1, 2, 3):
+            for v in (0, 2):
+                out.append({'k': 2, 'scripts': sc, 'N': N, 'v': v, 'cap': 64, 'bound': b2,
+                            'id': 'x2p%d' % pi, 'x': True})
+    xtrip = [
+        {'La': script(b'La', REPORT_A), 'Lb': script(b'Lb', REPORT_C, dots=False), 'Lc': script(b'Lc', REPORT_A)},
+        # La (good) only proceeds once the failing Lb has been started
+        {'La': script(b'La', REPORT_A, wait='Lb'), 'Lb': script(b'Lb', REPORT_B, dots=False), 'Lc': script(b'Lc', REPORT_A, dots=False)},
+        {'La': script(b'La', REPORT_C, dots=False), 'Lb': 'oserror', 'Lc': script(b'Lc', REPORT_A)},
+    ]
+    for ti, sc in enumerate(xtrip):
+        for N in (1, 2, 3):
+            if ti == 1 and N < 2:
+                continue
+            for v in (0, 2):
+                out.append({'k': 3, 'scripts': sc, 'N': N, 'v': v, 'cap': 64, 'bound': b3,
+                            'id': 'x3t%d' % ti, 'x': True})
     return out
 
 
@@ -201,9 +232,9 @@ def strip_keepalive(printed, blocks):
     return out + printed[pos:]
 
 
-def reference(cfg):
+def reference(cfg, only=None):
     """(sequential output bytes, ran, failures Counter, errors Counter,
-    layers that cannot report)"""
+    layers that cannot report); only = the layers that were started (-x)"""
     N, v = cfg['N'], cfg['v']
     out = b''
     ran = 0
@@ -211,6 +242,8 @@ def reference(cfg):
     fails = collections.Counter()
     errs = collections.Counter()
     for layer in sorted(cfg['scripts']):
+        if only is not None and layer not in only:
+            continue
         sc = cfg['scripts'][layer]
         if sc == 'oserror':
             errs['subprocess for %s' % layer] += 1
@@ -251,6 +284,8 @@ class Execution:
         cfg = self.cfg
         from zope.testrunner.options import get_options
         argv = ['vt', '-j%d' % cfg['N']] + (['-' + 'v' * cfg['v']] if cfg['v'] else [])
+        if cfg.get('x'):
+            argv.append('-x')
         saved_stdout = sys.stdout
         sys.stdout = self.out          # get_options builds the formatter
         try:
@@ -311,6 +346,15 @@ def explore(cfg, collect):
     bound = cfg['bound']
     ref_out, ref_ran, ref_f, ref_e, ref_blocks = reference(cfg)
     N = cfg['N']
+    xmode = bool(cfg.get('x'))
+    layer_names = sorted(cfg['scripts'])
+
+    def _bad(sc):
+        if sc == 'oserror':
+            return True
+        rep = b''.join(a for op, a in sc if op == 'err').splitlines()
+        return sum(map(int, rep[0].split()[1:])) > 0
+    first_bad = min([i for i, n in enumerate(layer_names) if _bad(cfg['scripts'][n])] or [len(layer_names) - 1])
     visited = {}
     transitions = set()
     stack = [[]]
@@ -323,6 +367,7 @@ def explore(cfg, collect):
     nsteps_eager = [0]
     nslow = [0]
     finish_orders = set()
+    xstarted = set()
 
     def V(clause, detail, choices):
         if len(viol) < 10:
@@ -343,6 +388,7 @@ def explore(cfg, collect):
         pruned = False
         fin = []
         eager_here = 0
+        armed = None
         t_exec = _time.time()
         try:
             # the root thread is parked before its first instruction; give it
@@ -386,6 +432,13 @@ def explore(cfg, collect):
                 if not ref_out.startswith(core):
                     V('output_not_in_sequential_order', 'printed so far %r is not a prefix of the sequential output %r' % (printed, ref_out), names)
                     break
+                if xmode:
+                    started = [layer_names[int(a.name[6:]) - 1] for a in acts
+                               if isinstance(a, S.TActor) and a.name.startswith('spawn_')]
+                    if armed is not None and started != armed:
+                        V('layer_started_after_a_failure_was_on_record',
+                          'with -x the parent began a poll iteration with failures=%s errors=%s on record and layers %s started; now %s are started' % (ex.failures, ex.errors, armed, started), names)
+                        break
                 for a in acts:
                     if isinstance(a, S.TActor) and a.done and a.name.startswith('spawn') and a.name not in fin:
                         fin.append(a.name)
@@ -396,12 +449,26 @@ def explore(cfg, collect):
                     finish_orders.add(tuple(fin))
                     f = collections.Counter(x[0] for x in ex.failures)
                     e = collections.Counter(x[0] for x in ex.errors)
-                    term = (core == ref_out, ex.ret, tuple(sorted(f.items())), tuple(sorted(e.items())))
+                    t_out, t_ran, t_f, t_e = ref_out, ref_ran, ref_f, ref_e
+                    if xmode:
+                        # the reference is the sequential run of the layers
+                        # that were started
+                        t_out, t_ran, t_f, t_e, _ = reference(cfg, only=set(started))
+                        if started != layer_names[:len(started)]:
+                            V('started_layers_not_a_prefix_of_the_layer_order', 'started %s of %s' % (started, layer_names), names)
+                        if len(started) < first_bad + 1:
+                            V('stopped_before_the_first_bad_layer', 'started only %s; the first layer with a failure or error is %s' % (started, layer_names[first_bad]), names)
+                        if N == 1 and len(started) > first_bad + 1:
+                            V('layer_started_after_the_failing_one_in_a_sequential_run', 'started %s; the first layer with a failure or error is %s' % (started, layer_names[first_bad]), names)
+                    term = (core == t_out, ex.ret, tuple(sorted(f.items())), tuple(sorted(e.items())))
+                    if xmode:
+                        term = (core == t_out, ex.ret == t_ran, f == t_f, e == t_e)
+                        xstarted.add(tuple(started))
                     terminals[term] += 1
-                    if core != ref_out:
-                        V('final_output_differs', 'printed %r, sequential reference %r' % (printed, ref_out), names)
-                    if ex.ret != ref_ran or f != ref_f or e != ref_e:
-                        V('results_differ_from_sequential', 'ran=%s failures=%s errors=%s; children reported ran=%s failures=%s errors=%s' % (ex.ret, dict(f), dict(e), ref_ran, dict(ref_f), dict(ref_e)), names)
+                    if core != t_out:
+                        V('final_output_differs', 'printed %r, sequential reference %r' % (printed, t_out), names)
+                    if ex.ret != t_ran or f != t_f or e != t_e:
+                        V('results_differ_from_sequential', 'ran=%s failures=%s errors=%s; children reported ran=%s failures=%s errors=%s' % (ex.ret, dict(f), dict(e), t_ran, dict(t_f), dict(t_e)), names)
                     if s.thread_deaths:
                         V('thread_died', str(s.thread_deaths), names)
                     if s.live_children() != 0:
@@ -443,6 +510,11 @@ def explore(cfg, collect):
                         if c2 <= bound:
                             stack.append(choices + [alt])
                 chosen = order[pick]
+                if (xmode and armed is None and chosen is ex.root and chosen.kind == 'sleep'
+                        and (ex.failures or ex.errors)):
+                    # the parent is about to begin a poll iteration with a
+                    # failure on record: from here on nothing may be started
+                    armed = list(started)
                 cost += pre_cost(cur, chosen, en)
                 choices.append(pick)
                 names.append(getattr(chosen, 'name', None) or 'C%d' % chosen.idx)
@@ -476,7 +548,7 @@ def explore(cfg, collect):
     return {'executions': nexec, 'states': set(visited), 'transitions': transitions,
             'terminals': terminals, 'violations': viol, 'maxdepth': maxdepth,
             'sample': sample, 'interleaved': interleaved,
-            'finish_orders': finish_orders}
+            'finish_orders': finish_orders, 'xstarted': xstarted}
 
 
 def pre_cost(cur, chosen, enabled):
@@ -699,8 +771,11 @@ def run_case(case):
             'violations': viol, 'states': r['states'], 'transitions': {S.h(t) for t in r['transitions']},
             'outcome': (cfg['id'], cfg['N'], cfg['v'], tuple(sorted(map(str, r['terminals'])))[:2]),
             'counters': {'distinct_worker_finish_orders_summed_over_configs': len(r['finish_orders']),
-                         'schedule_steps_longest_summed': r['maxdepth'], 'configs': 1},
+                         'schedule_steps_longest_summed': r['maxdepth'], 'configs': 1,
+                         'stop_on_error_configs': int(bool(cfg.get('x'))),
+                         'stop_on_error_distinct_started_sets_summed': len(r['xstarted'])},
             'sample': {'config': {k: v for k, v in cfg.items() if k != 'scripts'},
                        'one_complete_schedule': r['sample'], 'executions': r['executions'],
                        'states': len(r['states']), 'max_depth': r['maxdepth'],
-                       'worker_finish_orders': sorted(r['finish_orders'])}}
+                       'worker_finish_orders': sorted(r['finish_orders']),
+                       'started_layer_sets_under_stop_on_error': sorted(r['xstarted'])}}
